@@ -95,6 +95,7 @@ class Macro:
         self.once = False        # may be called only once (global labels)
         self.calls = 0
         self.glabels = []
+        self.heavy = False
 
 
 class Gen:
@@ -611,7 +612,12 @@ class Gen:
         digits = rng.random() < 0.5
         n = rng.choice([0, 1, 2, 3, 5, 8]) if ctx.get('mult', 1) <= 8 else 1
         alphabet = '0123456789' if digits else 'abcxyzABCXYZ0189 '
-        s = ''.join(rng.choice(alphabet) for _ in range(n))
+        while True:
+            s = ''.join(rng.choice(alphabet) for _ in range(n))
+            # the string must not spell a parameter name: an enclosing expansion would replace it, and the
+            # argument would arrive upper-cased when AS is not case-sensitive (string context, see ASSUMPTIONS)
+            if not any(w.lower() in PNAMES_B or w.lower() in PNAMES_A for w in re.findall(r'[A-Za-z0-9]+', s)):
+                break
         c = self.sub_ctx(ctx, True, n)
         self.feat.add('irpc')
         lines = ['\t%s\t%s,"%s"' % (self.kw('irpc'), name, s)]
@@ -848,12 +854,17 @@ class Gen:
         if kind == 'glob':
             m.glabels = []
         lines = ['%s\t%s\t%s' % (m.name, self.kw('macro'), ','.join(hdr))] + body + ['\t%s' % self.kw('endm')]
+        # a macro whose body loops or calls is not called from inside repetitions (bounds the size of the expansion)
+        ops = [(macroexp.split_line(b)[1] or '').upper() for b in body]
+        m.heavy = m.rec or any(o in macroexp.STARTERS or o.startswith('MC') or o.startswith('MI') or o == 'INCLUDE' for o in ops)
         self.macros.append(m)
         self.feat.add('macro')
         return lines
 
     def call_any(self, ctx):
         ms = [m for m in self.macros if not (m.once and (m.calls or ctx.get('in_body') or ctx.get('dead')))]
+        if ctx.get('mult', 1) > 4:
+            ms = [m for m in ms if not m.heavy]
         if not ms:
             return None
         m = self.rng.choice(ms[-6:])
